@@ -70,6 +70,16 @@ def arity(ctx, ex):
                     res = B.split_entries(r.get("items") or [], traits, has_item) if r["status"] == "ok" and r.get("items") is not None else None
                     if res is None or any(st != "error" for _, st, _ in res):
                         ctx.violation("B:C18:arity:%s:%d:%s:%s" % (kind, k, tr, entry), "%s on a struct with %d fields must be rejected" % (tr, k), {"layer": "B", "item": item, "entry": entry, "traits": traits, "result": r})
+    # several fields stay several fields whatever attributes they carry (a true #[cfg], doc comments, lint attributes, foreign helpers)
+    for item in ["struct X { #[cfg(all())] a: u8, b: u16 }", "struct X(#[cfg(not(any()))] u8, u16);", "struct X<T> where T: Copy { a: T, #[cfg(unix)] b: u8, #[cfg(all())] c: u8 }",
+                 "struct X { /// doc\n a: u8, #[allow(dead_code)] b: u16 }", "struct X(#[debug(ignore)] u8, #[cfg_attr(all(), allow(unused))] u16);", "struct X { #[cfg(all())] #[doc(hidden)] a: u8, #[cfg(all())] b: u8 }"]:
+        for tr in ("Deref", "Deref, DerefMut"):
+            traits = [t.strip() for t in tr.split(",")]
+            r, has_item = B.expand(ex, "attr", traits, item)
+            n += 1
+            res = B.split_entries(r.get("items") or [], traits, has_item) if r["status"] == "ok" and r.get("items") is not None else None
+            if res is None or any(st != "error" for _, st, _ in res):
+                ctx.violation("B:C18:arity-attrs:%s:%s" % (tr, item), "%s on a struct with several fields must be rejected whatever attributes the fields carry" % tr, {"layer": "B", "item": item, "entry": "attr", "traits": traits, "result": r})
     return n
 
 
